@@ -25,7 +25,7 @@ import os
 
 import z3
 
-from vc import core, pyvc
+from vc import core, pyclass, pyvc
 from vc.pyvc import Contract, Fork, Ghost, LoopSpec, SExc, SRecord, to_z3, with_model
 
 FS = 'hail/python/hailtop/aiotools/fs/fs.py'
@@ -333,6 +333,8 @@ def _block_read(check_arg=None):
         blk = pyvc.fresh_value(('list', 'int'), 'block')
         st.assume(blk.len == m)
         st.env['REM'] = rem - m
+        if 'POS' in st.env and 'BASE' in st.env:
+            st.env['POS'] = st.env['POS'] + m  # the file position moves over exactly the bytes returned
         st.env['n_under'] = st.env['n_under'] + 1
         st.env['last_block_len'] = m
         return blk
@@ -346,8 +348,8 @@ def truncated_read():
         qualname='TruncatedReadableBinaryIO.read',
         types={'n': 'int', 'REM': 'int'},
         self_fields={'bio': 'U', 'offset': 'int', 'limit': 'int'},
-        extra_inputs={'REM': 'int'},
-        requires=['0 <= self.offset and self.offset <= self.limit', 'n >= -1', 'REM >= 0'],
+        extra_inputs={'REM': 'int', 'POS': 'int', 'BASE': 'int'},
+        requires=['0 <= self.offset and self.offset <= self.limit', 'n >= -1', 'REM >= 0', 'self.offset == POS - BASE'],
         calls={'self.bio.read': _block_read()},
         ghost_init={'n_under': '0', 'last_block_len': '0'},
         ensures=[
@@ -356,10 +358,73 @@ def truncated_read():
             ('returns-min-of-request-window-and-file', 'len(result) == min(old(self.limit) - old(self.offset), old(REM)) if n == -1 else len(result) == min(n, old(self.limit) - old(self.offset), old(REM))'),
             ('one-underlying-read-returned-unchanged', 'n_under == 1 and len(result) == last_block_len'),
             ('limit-unchanged', 'self.limit == old(self.limit)'),
+            ('window-position-stays-in-step-with-the-file-position', 'self.offset == POS - BASE'),
         ],
         raises={},
         canaries=[('always-empty', 'len(result) == 0')],
     )
+
+
+SEEK_CONSTS = {'os.SEEK_SET': 0, 'os.SEEK_CUR': 1, 'os.SEEK_END': 2, 'io.SEEK_SET': 0, 'io.SEEK_CUR': 1, 'io.SEEK_END': 2}
+SEEK_NAMES = {0: 'SEEK_SET', 1: 'SEEK_CUR', 2: 'SEEK_END'}
+SEEK_CLAUSE = '%s-leaves-the-window-position-in-step-with-the-file-position'
+SEEK_INSIDE = 'a-successful-seek-lands-inside-the-window'
+
+
+def truncated_seek():
+    """TruncatedReadableBinaryIO.seek.  Ghosts: BASE = file position at which the window starts (where the file stood when the
+    window was created), POS = current position of the underlying file, SIZE = its size.  The window's bookkeeping is
+    self.offset == POS - BASE (bytes of the window already passed); read() relies on it (limit - offset bytes are left).  The
+    underlying seek is the io contract: SEEK_SET -> offset, SEEK_CUR -> POS + offset, SEEK_END -> SIZE + offset (ValueError
+    for another whence, OSError for a negative target).  One clause per whence so that each is reported by name."""
+
+    def under_seek(eng, st, args, kw, node):
+        off = eng.num(args[0])
+        wh = eng.num(args[1]) if len(args) > 1 else (eng.num(kw['whence']) if 'whence' in kw else z3.IntVal(0))
+        pos, size = st.env['POS'], st.env['SIZE']
+        new = z3.If(wh == 0, off, z3.If(wh == 1, pos + off, size + off))
+        valid = z3.And(wh >= 0, wh <= 2)
+
+        def moved(s):
+            s.env['POS'] = new
+            s.env['n_seek'] = s.env['n_seek'] + 1
+
+        raise Fork(node, [
+            ('file-moved', z3.And(valid, new >= 0), 'value', new, moved),
+            ('negative-target', z3.And(valid, new < 0), 'raise', SExc('OSError'), None),
+            ('unknown-whence', z3.Not(valid), 'raise', SExc('ValueError'), None),
+        ])
+
+    return Contract(
+        path=LOCAL,
+        qualname='TruncatedReadableBinaryIO.seek',
+        types={'offset': 'int', 'whence': 'int'},
+        self_fields={'bio': 'U', 'offset': 'int', 'limit': 'int'},
+        extra_inputs={'POS': 'int', 'BASE': 'int', 'SIZE': 'int'},
+        requires=['self.offset == POS - BASE', 'BASE >= 0', 'POS >= 0', 'SIZE >= 0', 'self.limit >= 0'],
+        calls={'self.bio.seek': under_seek},
+        consts=dict(SEEK_CONSTS),
+        ghost_init={'n_seek': '0'},
+        ensures=[(SEEK_CLAUSE % SEEK_NAMES[w], 'implies(whence == %d, self.offset == POS - BASE)' % w) for w in (1, 0, 2)] + [
+            ('one-underlying-seek-whose-result-is-returned', 'n_seek == 1 and result == POS'),
+            ('limit-unchanged', 'self.limit == old(self.limit)'),
+            # the class invariant read() starts from (0 <= offset <= limit): a seek that succeeds lands inside the window
+            (SEEK_INSIDE, '0 <= self.offset and self.offset <= self.limit'),
+        ],
+        raises={'ValueError': 'whence < 0 or whence > 2', 'OSError': True, 'AssertionError': 'whence == 2 and offset >= 0'},
+        canaries=[('window-position-never-changes', 'self.offset == old(self.offset)')],
+    )
+
+
+def seek_replayer(model, obl):
+    """replay of a failed seek clause on the real class: the whence is the one the clause is about"""
+    whence = [w for w, n in SEEK_NAMES.items() if (SEEK_CLAUSE % n) in obl.name]
+    if not whence and SEEK_INSIDE not in obl.name:
+        return None
+    r = core.run_native(open(os.path.join(os.path.dirname(__file__), 'native', 'c23_replay.py')).read(), {'mode': 'seek', 'whence': whence[0] if whence else None, 'where': 'inside' if whence else 'outside'})
+    if isinstance(r, dict) and r.get('confirmed'):
+        r.setdefault('input', {k: r[k] for k in ('start', 'length', 'plan') if k in r})
+    return r
 
 
 def truncated_init():
@@ -537,6 +602,43 @@ def azure_read(variant, mode):
         ch = pyvc.fresh_value(('list', 'int'), 'chunk')
         raise Fork(node, [('chunk', None, 'value', ch, lambda s: s.assume(ch.len >= 1)), ('exhausted', None, 'raise', SExc('StopAsyncIteration'), None)])
 
+    models = {
+        'self._get_client': lambda eng, st, args, kw, node: z3.Const('blob_client', pyvc.U),
+        'client.download_blob': download,
+        '.download_blob': lambda eng, st, args, kw, node: download(eng, st, args[1:], kw, node),  # whatever the client is called
+        'FileNotFoundError': lambda eng, st, args, kw, node: SExc('FileNotFoundError'),
+    }
+    consts = {'NOEXC': NOEXC, '__exc_hierarchy__': {'StopAsyncIteration': ['Exception']}}
+    types = {'n': 'int', '.status_code': 'int', 'data': 'List[int]'}
+    # private helpers of the stream (none today): a `self.<helper>(...)` call executes the helper's REAL body under the same
+    # models of the SDK calls, so that a request moved into a helper is still held to the clauses below
+    cx = pyclass.ClassIndex([AZ])
+    inl = pyclass.Inliner(None, cx, calls=models, consts=consts, types={k: v for k, v in types.items() if k.startswith('.')}, shared=['R', 'WINDOW_LEFT', 'n_req', 'last_exc'])
+    own = [m.name for m in cx.classes['AzureReadableStream'].body if isinstance(m, (pyast.FunctionDef, pyast.AsyncFunctionDef))] if 'AzureReadableStream' in cx.classes else []
+
+    def helper(m):
+        def model(eng, st, args, kw, node):
+            inl.ctx = eng.ctx
+            eng.ctx.under_contract(AZ, 'AzureReadableStream.%s' % m)
+            return inl.call('AzureReadableStream', m, st.env['self'], args, kw, st, node)
+
+        return model
+
+    helpers = {'self.%s' % m: helper(m) for m in own if m not in ('read', 'readexactly', '__init__', '_get_client')}
+    if mode == 'some':
+        # the clause "or signal an unexpected end of file": a range that starts at or after the end of the blob is answered 416
+        # by the service; read(n) - the path of readexactly / read_range - must turn exactly that into UnexpectedEOFError, a
+        # missing blob into FileNotFoundError, and let every other failure of the request through unchanged
+        is416 = "(isinst(last_exc, 'HttpResponseError') and last_exc.status_code == 416)"
+        raises = {
+            'FileNotFoundError': "isinst(last_exc, 'ResourceNotFoundError')",
+            'UnexpectedEOFError': is416,
+            '*': "exc == last_exc and not isinst(last_exc, 'ResourceNotFoundError') and not " + is416,
+        }
+        on_raise = [('a-range-starting-at-or-after-the-end-of-the-blob-416-is-signalled-as-UnexpectedEOFError', "implies(%s and not isinst(last_exc, 'ResourceNotFoundError'), isinst(exc, 'UnexpectedEOFError'))" % is416)]
+    else:
+        raises = {'*': True}
+        on_raise = []
     req = ['n >= 0' if mode == 'some' else 'n == -1', 'R >= 0', 'len(self._buffer) >= 0']
     if has_len:
         req += ['WINDOW_LEFT >= 0', 'self._length == WINDOW_LEFT']
@@ -551,26 +653,28 @@ def azure_read(variant, mode):
         path=AZ,
         qualname='AzureReadableStream.read',
         label='AzureReadableStream.read[%s%s,%s]' % ('offset' if has_off else 'no-offset', '+length' if has_len else '', 'read-all' if mode == 'all' else 'read-n'),
-        types={'n': 'int', '.status_code': 'int', 'data': 'List[int]'},
+        types=types,
         self_fields={'_eof': 'bool', '_buffer': 'List[int]', '_offset': 'int', '_length': 'int', '_downloader': 'U', '_chunk_it': 'U', '_fs': 'U', '_url': 'U'},
         extra_inputs={'R': 'int', 'WINDOW_LEFT': 'int'},
         setup=setup,
         requires=req,
-        calls={
+        calls=dict(helpers, **{
             'self._get_client': lambda eng, st, args, kw, node: z3.Const('blob_client', pyvc.U),
             'client.download_blob': download,
+            '.download_blob': lambda eng, st, args, kw, node: download(eng, st, args[1:], kw, node),
             'downloader.readall': readall,
             'self._downloader.chunks': lambda eng, st, args, kw, node: z3.Const(pyvc.fresh_name('chunk_it'), pyvc.U),
             'anext': anext_,
             'bytearray': lambda eng, st, args, kw, node: pyvc.SList(z3.IntVal(0), z3.K(z3.IntSort(), z3.IntVal(0)), 'int'),
             'bytes': lambda eng, st, args, kw, node: args[0],
             'FileNotFoundError': lambda eng, st, args, kw, node: SExc('FileNotFoundError'),
-        },
+        }),
         ghost_init={'n_req': '0', 'last_exc': 'NOEXC'},
-        consts={'NOEXC': NOEXC, '__exc_hierarchy__': {'StopAsyncIteration': ['Exception']}},
+        consts=consts,
         loops={0: LoopSpec(invariants=[('buffer-well-formed', 'len(self._buffer) >= 0')], modifies=['self._buffer'])},
         ensures=ens,
-        raises={'*': True},
+        raises=raises,
+        on_raise=on_raise,
     )
 
 
@@ -620,16 +724,290 @@ def azure_open_from(has_len):
     )
 
 
+# ---- (G) the request path of the GCS ranged read: the Range header must reach the wire -------------------------------------
+SESSION = 'hail/python/hailtop/aiocloud/common/session.py'
+HDR_T = ('map', 'U', 'U')
+KWARGS_T = ('rec', (('headers', HDR_T), ('params', 'U')))
+
+
+def _spread(eng, st, node):
+    """the mapping passed as `**mapping` at a call (None when the call has none / several)"""
+    sp = [eng.ev(k.value, st) for k in node.keywords if k.arg is None]
+    return sp[0] if len(sp) == 1 else None
+
+
+def _carries(eng, sent, H0):
+    """every header of H0 is in `sent` with the same value"""
+    if not isinstance(sent, pyvc.SMap):
+        return z3.BoolVal(False)
+    k = z3.Const(pyvc.fresh_name('hdr'), pyvc.U)
+    return z3.ForAll([k], z3.Implies(z3.Select(H0.has, k), z3.And(z3.Select(sent.has, k), z3.Select(sent.val, k) == z3.Select(H0.val, k))))
+
+
+def _kwargs_setup(extra=None):
+    """the caller's keyword arguments: a `headers` mapping H0 (any keys, any values: the Range header is one of them), an
+    opaque `params`, plus `extra` literal entries"""
+
+    def setup(eng, st):
+        H0 = pyvc.fresh_value(HDR_T, 'caller_headers')
+        for w in pyvc.wf_constraints(H0):
+            st.assume(w)
+        P0 = z3.Const('caller_params', pyvc.U)
+        rec = SRecord('dict', dict({'headers': H0, 'params': P0}, **(extra or {})))
+        st.env['kwargs'], st.env['H0'], st.env['P0'] = rec, H0, P0
+
+    return setup
+
+
+def _pop(eng, st, args, kw, node):
+    """dict.pop(key[, default]) on a keyword-argument record with a literal key"""
+    rec, key = args[0], args[1]
+    if not (isinstance(rec, SRecord) and isinstance(key, str)):
+        raise pyvc.Undecided('pop on %r' % (rec,))
+    if key in rec.fields:
+        return rec.fields.pop(key)
+    if len(args) > 2:
+        return args[2]
+    raise pyvc.PyRaise(SExc('KeyError'))
+
+
+def _update(eng, st, args, kw, node):
+    """headers.update(other) on finite maps: other's entries win"""
+    recv, other = args[0], args[1]
+    if not (isinstance(recv, pyvc.SMap) and isinstance(other, pyvc.SMap)):
+        raise pyvc.Undecided('update of %r with %r' % (recv, other))
+    eng.assign(node.func.value, pyvc.merge_maps(recv, other, st), st)
+    return None
+
+
+def authn_request():
+    """Session._request_with_valid_authn(method, url, **kwargs) with caller headers H0.  Credentials (assumed) produce
+    authentication headers only - never a key the caller set - possibly none at all (anonymous credentials).  EVERY request
+    handed to the HTTP session carries method, url and params unchanged, every caller header unchanged and the authentication
+    headers of that round."""
+
+    def auth(eng, st, args, kw, node):
+        AH = pyvc.fresh_value(HDR_T, 'auth_headers')
+        k = z3.Const(pyvc.fresh_name('ak'), pyvc.U)
+        facts = pyvc.wf_constraints(AH) + [z3.ForAll([k], z3.Implies(z3.Select(AH.has, k), z3.Not(z3.Select(st.env['H0'].has, k))))]
+        exp = z3.Int(pyvc.fresh_name('expiration'))
+
+        def eff(s):
+            for f in facts:
+                s.assume(f)
+            s.env['AH'] = AH
+            s.env['n_auth'] = s.env['n_auth'] + 1
+
+        raise Fork(node, [('credentials-without-expiry', None, 'value', (AH, None), eff), ('credentials-with-expiry', None, 'value', (AH, exp), eff)])
+
+    def request(eng, st, args, kw, node):
+        sp = _spread(eng, st, node)
+        ok = isinstance(sp, SRecord) and len(args) == 2 and not kw
+        eng.oblige(st, 'request-made-with-method-url-and-the-keyword-arguments', z3.BoolVal(ok))
+        if ok:
+            eng.oblige(st, 'method-url-and-params-reach-the-wire-unchanged', z3.And(eng.equal(args[0], st.env['method']), eng.equal(args[1], st.env['url']), z3.BoolVal(set(sp.fields) <= {'headers', 'params'} and 'params' in sp.fields), eng.equal(sp.fields.get('params'), st.env['P0'])))
+            sent = sp.fields.get('headers')
+            eng.oblige(st, 'every-caller-header-reaches-the-wire-unchanged', _carries(eng, sent, st.env['H0']))
+            eng.oblige(st, 'the-authentication-headers-of-this-round-are-sent', _carries(eng, sent, st.env['AH']) if isinstance(st.env.get('AH'), pyvc.SMap) else z3.BoolVal(False))
+        resp = z3.Const(pyvc.fresh_name('response'), pyvc.U)
+        e = z3.Const(pyvc.fresh_name('http_exc'), pyvc.U)
+
+        def good(s):
+            s.env['n_req'] = s.env['n_req'] + 1
+            s.env['last_ok'] = resp
+
+        def bad(s):
+            s.env['n_req'] = s.env['n_req'] + 1
+            s.env['last_exc'] = e
+
+        raise Fork(node, [('response', None, 'value', resp, good), ('request-fails', None, 'raise', SExc(term=e), bad)])
+
+    inv_headers = "'headers' in kwargs and forall('U', lambda k: implies(k in H0, k in kwargs['headers'] and kwargs['headers'][k] == H0[k]))"
+    return Contract(
+        path=SESSION,
+        qualname='Session._request_with_valid_authn',
+        types={'method': 'U', 'url': 'U', 'kwargs': KWARGS_T, '.status': 'int', 'expiration': 'int'},
+        self_fields={'_credentials': 'U', '_http_session': 'U'},
+        setup=_kwargs_setup(),
+        calls={
+            'self._credentials.auth_headers_with_expiration': auth, 'self._http_session.request': request, '.pop': _pop, '.update': _update,
+            'time.time': lambda eng, st, args, kw, node: z3.Int(pyvc.fresh_name('now')), 'log.info': lambda eng, st, args, kw, node: None,
+        },
+        ghost_init={'n_auth': '0', 'n_req': '0', 'AH': 'NOEXC', 'last_ok': 'NOEXC', 'last_exc': 'NOEXC'},
+        consts={'NOEXC': NOEXC},
+        loops={0: LoopSpec(invariants=[('caller-headers-still-in-the-keyword-arguments', inv_headers), ('params-untouched', "kwargs['params'] == P0"), ('counters', 'n_req >= 0 and n_auth >= 0')], modifies=['n_auth', 'n_req', 'AH', 'last_ok', 'last_exc'])},
+        ensures=[('returns-the-response-of-a-request-that-was-made', 'n_req >= 1 and result == last_ok')],
+        raises={'*': 'exc == last_exc'},
+        canaries=[('never-returns', 'n_req == 0')],
+    )
+
+
+def _forwarded(eng, st, node, args, kw, what, method=None, n_pos=2, allowed=('headers', 'params')):
+    """obligations at a call that must pass the request on: method and url in place, the caller's keyword arguments spread
+    into it with `headers` still the caller's mapping and `params` still the caller's"""
+    sp = _spread(eng, st, node)
+    ok = isinstance(sp, SRecord) and len(args) == n_pos and not kw
+    eng.oblige(st, '%s-with-method-url-and-the-keyword-arguments' % what, z3.BoolVal(ok))
+    if ok:
+        m, u = args[n_pos - 2], args[n_pos - 1]
+        eng.oblige(st, '%s-method-and-url-unchanged' % what, z3.And(eng.equal(m, method if method is not None else st.env['method']), eng.equal(u, st.env['url'])))
+        sent = sp.fields.get('headers')
+        eng.oblige(st, '%s-every-caller-header-unchanged' % what, _carries(eng, sent, st.env['H0']))
+        eng.oblige(st, '%s-nothing-added-to-the-keyword-arguments' % what, z3.BoolVal(set(sp.fields) <= set(allowed)))
+    st.env['n_fwd'] = st.env['n_fwd'] + 1
+    v = z3.Const(pyvc.fresh_name('response'), pyvc.U)
+    st.env['last_ok'] = v
+    return v
+
+
+def session_request(retry):
+    """Session.request without session-wide default params (self._params is None): the authenticated request - directly or
+    through retry_transient_errors - gets method, url and the caller's keyword arguments (minus `retry`) unchanged"""
+
+    def setup(eng, st):
+        _kwargs_setup({} if retry is None else {'retry': retry})(eng, st)
+        st.env['self'].fields['_params'] = None
+
+    def retried(eng, st, args, kw, node):
+        fn = args[0]
+        eng.oblige(st, 'the-retried-function-is-the-authenticated-request', z3.BoolVal((isinstance(fn, tuple) and fn[0] == 'boundmethod' and fn[2] == '_request_with_valid_authn') or (isinstance(fn, pyvc.SDotted) and fn.name == 'self._request_with_valid_authn')))
+        return _forwarded(eng, st, node, args, kw, 'retried-request', n_pos=3)
+
+    return Contract(
+        path=SESSION,
+        qualname='Session.request',
+        label='Session.request[%s]' % ('retry-by-default' if retry is None else 'retry=%s' % retry),
+        types={'method': 'U', 'url': 'U'},
+        self_fields={'_params': 'U'},
+        setup=setup,
+        calls={'retry_transient_errors': retried, 'self._request_with_valid_authn': lambda eng, st, args, kw, node: _forwarded(eng, st, node, args, kw, 'direct-request'), '.pop': _pop},
+        ghost_init={'n_fwd': '0', 'last_ok': 'NOEXC'},
+        consts={'NOEXC': NOEXC},
+        ensures=[('one-authenticated-request-whose-response-is-returned', 'n_fwd == 1 and result == last_ok')],
+        raises={},
+    )
+
+
+def base_session_get():
+    return Contract(
+        path=SESSION,
+        qualname='BaseSession.get',
+        types={'url': 'U'},
+        setup=_kwargs_setup(),
+        calls={'self.request': lambda eng, st, args, kw, node: _forwarded(eng, st, node, args, kw, 'request', method='GET')},
+        ghost_init={'n_fwd': '0', 'last_ok': 'NOEXC'},
+        consts={'NOEXC': NOEXC},
+        ensures=[('one-GET-request-whose-response-is-returned', 'n_fwd == 1 and result == last_ok')],
+        raises={},
+    )
+
+
+def rate_limited_request():
+    return Contract(
+        path=SESSION,
+        qualname='RateLimitedSession.request',
+        types={'method': 'U', 'url': 'U'},
+        self_fields={'_session': 'U', '_rate_limiter': 'U'},
+        setup=_kwargs_setup(),
+        calls={'with:self._rate_limiter': with_model(lambda eng, st, node: [(st, ('value', z3.Const('limiter', pyvc.U)))], lambda eng, st, exc: [(st, None)]), 'self._session.request': lambda eng, st, args, kw, node: _forwarded(eng, st, node, args, kw, 'inner-request')},
+        ghost_init={'n_fwd': '0', 'last_ok': 'NOEXC'},
+        consts={'NOEXC': NOEXC},
+        ensures=[('one-inner-request-whose-response-is-returned', 'n_fwd == 1 and result == last_ok')],
+        raises={},
+    )
+
+
+def gcs_get_object():
+    """GoogleStorageClient.get_object(bucket, name, headers=H0): one GET of the object's media whose keyword arguments still
+    carry the caller's headers (the Range header built by _open_from); 404 -> FileNotFoundError, 416 (range starts at or after
+    the end of the object) -> UnexpectedEOFError, anything else unchanged"""
+
+    def setup(eng, st):
+        H0 = pyvc.fresh_value(HDR_T, 'caller_headers')
+        for w in pyvc.wf_constraints(H0):
+            st.assume(w)
+        st.env['kwargs'], st.env['H0'] = SRecord('dict', {'headers': H0}), H0
+
+    def get(eng, st, args, kw, node):
+        sp = _spread(eng, st, node)
+        ok = isinstance(sp, SRecord) and len(args) == 1 and not kw
+        eng.oblige(st, 'GET-with-the-url-and-the-keyword-arguments', z3.BoolVal(ok))
+        if ok:
+            eng.oblige(st, 'GET-every-caller-header-unchanged', _carries(eng, sp.fields.get('headers'), st.env['H0']))
+            eng.oblige(st, 'GET-nothing-else-added-to-the-keyword-arguments', z3.BoolVal(set(sp.fields) <= {'headers', 'params'}))
+        resp = z3.Const(pyvc.fresh_name('response'), pyvc.U)
+        e = z3.Const(pyvc.fresh_name('http_exc'), pyvc.U)
+
+        def good(s):
+            s.env['n_get'] = s.env['n_get'] + 1
+            s.env['last_resp'] = resp
+
+        def bad(s):
+            s.env['n_get'] = s.env['n_get'] + 1
+            s.env['last_exc'] = e
+
+        raise Fork(node, [('response', None, 'value', resp, good), ('request-fails', None, 'raise', SExc(term=e), bad)])
+
+    def stream(eng, st, args, kw, node):
+        eng.oblige(st, 'stream-wraps-the-response', to_z3(args[0], 'U') == to_z3(st.env['last_resp'], 'U'))
+        v = z3.Const(pyvc.fresh_name('get_object_stream'), pyvc.U)
+        st.env['last_ok'] = v
+        return v
+
+    is_http = "isinst(last_exc, 'ClientResponseError')"
+    return Contract(
+        path=GCS,
+        qualname='GoogleStorageClient.get_object',
+        types={'bucket': 'U', 'name': 'U', '.status': 'int'},
+        self_fields={'_session': 'U'},
+        setup=setup,
+        calls={'self._update_params_with_user_project': lambda eng, st, args, kw, node: None, 'self._session.get': get, 'GetObjectStream': stream, 'urllib.parse.quote': lambda eng, st, args, kw, node: z3.Const(pyvc.fresh_name('quoted'), pyvc.U)},
+        ghost_init={'n_get': '0', 'last_ok': 'NOEXC', 'last_resp': 'NOEXC', 'last_exc': 'NOEXC'},
+        consts={'NOEXC': NOEXC},
+        ensures=[('one-GET-whose-stream-is-returned', 'n_get == 1 and result == last_ok')],
+        raises={
+            'AssertionError': True,
+            'FileNotFoundError': is_http + ' and last_exc.status == 404',
+            'UnexpectedEOFError': is_http + ' and last_exc.status == 416',
+            '*': 'exc == last_exc and not (%s and (last_exc.status == 404 or last_exc.status == 416))' % is_http,
+        },
+        on_raise=[('a-range-starting-at-or-after-the-end-of-the-object-416-is-signalled-as-UnexpectedEOFError', "implies(n_get == 1 and %s and last_exc.status == 416, isinst(exc, 'UnexpectedEOFError'))" % is_http)],
+    )
+
+
+def scans(ctx):
+    """syntactic facts of the GCS request path"""
+    tree = pyast.parse(core.read_repo(GCS))
+    fn = pyvc.find_function(tree, 'GoogleStorageClient._update_params_with_user_project')
+    ok = isinstance(fn, (pyast.FunctionDef, pyast.AsyncFunctionDef))
+    touched = sorted({n.value for n in pyast.walk(fn) if isinstance(n, pyast.Constant) and isinstance(n.value, str) and n.value != 'params' and any(isinstance(p, pyast.Subscript) and p.slice is n for p in pyast.walk(fn))} | {n.func.attr for n in pyast.walk(fn) if isinstance(n, pyast.Call) and isinstance(n.func, pyast.Attribute) and isinstance(n.func.value, pyast.Name) and n.func.value.id == fn.args.args[1].arg and n.func.attr in pyvc.MUTATORS | {'popitem', '__delitem__'}} | {'del' for n in pyast.walk(fn) if isinstance(n, pyast.Delete)}) if ok else ['anchor moved']
+    ctx.add(core.decided('C23/GoogleStorageClient._update_params_with_user_project/touches-only-the-params-entry-of-the-request-arguments', ok and not touched, 'other entries written / removed: %r' % (touched,), kind='frame'))
+    # get_object is reached from _open_from through the storage client only (the contract of _open_from models that call)
+    src = core.read_repo(SESSION)
+    cls = [n for n in pyast.parse(src).body if isinstance(n, pyast.ClassDef) and n.name == 'Session']
+    overrides = [m.name for c in cls for m in c.body if isinstance(m, (pyast.FunctionDef, pyast.AsyncFunctionDef)) and m.name in ('get', 'post', 'put', 'patch', 'delete', 'head')]
+    ctx.add(core.decided('C23/Session/uses-the-verified-BaseSession.get', bool(cls) and 'get' not in overrides, 'Session overrides %r' % (overrides,), kind='frame'))
+
+
 def native_witness(ctx):
     """concrete search on the real code, usable when the contracts no longer apply to a changed source (vc/check.py)"""
     return core.run_native(open(os.path.join(os.path.dirname(__file__), 'native', 'c23_replay.py')).read(), {})
 
 
 def build(ctx):
-    for c in [read_range(), read_from()] + open_from() + [router_open_from()] + empty_stream() + [gcs_open_from(True), gcs_open_from(False), s3_open_from(True), s3_open_from(False), truncated_init(), truncated_read(), readexactly_blocking(), read_blocking(), local_open_from(True), local_open_from(False), azure_open_from(True), azure_open_from(False), azure_readexactly()] + [azure_read(v, m) for v in ((True, True), (True, False), (False, False)) for m in ('all', 'some')]:
-        e = pyvc.Engine(ctx, c).run()
+    for c in [read_range(), read_from()] + open_from() + [router_open_from()] + empty_stream() + [gcs_open_from(True), gcs_open_from(False), s3_open_from(True), s3_open_from(False), truncated_init(), truncated_read(), truncated_seek(), readexactly_blocking(), read_blocking(), local_open_from(True), local_open_from(False), azure_open_from(True), azure_open_from(False), azure_readexactly(), authn_request(), session_request(None), session_request(False), base_session_get(), rate_limited_request(), gcs_get_object()] + [azure_read(v, m) for v in ((True, True), (True, False), (False, False)) for m in ('all', 'some')]:
+        e = pyvc.Engine(ctx, c)
+        if c.qualname == 'TruncatedReadableBinaryIO.seek':
+            e.replayer = seek_replayer  # a failed seek clause is replayed on the real class for the whence it is about
+        e.run()
         _strict(ctx, e, c.label or c.qualname)
+    scans(ctx)
     ctx.witness_search = lambda: core.run_native(open(os.path.join(os.path.dirname(__file__), 'native', 'c23_replay.py')).read(), {})
+    ctx.assume('credentials (assumed): auth_headers_with_expiration() yields authentication headers only - never a key the caller of the request set itself (the Range header is not overwritten by a credential) - and possibly none at all (anonymous credentials)')
+    ctx.assume('Session.request is verified for sessions without session-wide default params (self._params is None, as for the storage client); the merge loop over self._params writes kwargs[\'params\'] only (not under contract)')
+    ctx.assume('io contract of the underlying file (assumed): seek(o, SEEK_SET) -> o, seek(o, SEEK_CUR) -> position + o, seek(o, SEEK_END) -> size + o; ValueError for another whence, OSError for a negative target; read(k) advances the position by the bytes returned')
+    ctx.assume('Azure Blob service / GCS (assumed): a range that starts at or after the end of the object is answered 416 (azure.core HttpResponseError.status_code / aiohttp ClientResponseError.status)')
+    ctx.undecided('AzureReadableStream.read(-1) (the read_from path) lets the 416 of a range starting at or after the end of the blob escape as HttpResponseError, while GCS / S3 signal UnexpectedEOFError at open and the local backend returns b\'\'; the property names the unexpected-end-of-file signal for range reads only, so no clause is claimed for unbounded reads from an offset >= size')
     ctx.assume('Azure SDK (assumed): BlobClient.download_blob(offset, length) delivers the bytes offset .. offset+length-1 of the blob (to the end without a length), in order, through readall() / chunks()')
     ctx.assume('RFC 7233 (assumed contract of the GCS/S3 servers): `Range: bytes=a-` returns the object from byte a, `bytes=a-b` the bytes a..min(b, N-1), and a >= N is answered 416 / InvalidRange')
     ctx.assume('str(i) of a Python int i is its decimal representation (str_int is uninterpreted: the header is compared with the specification term by congruence)')
